@@ -32,6 +32,42 @@ CHECKS = {
               "the specification predicts, which binds the grammar's precedence and associativity; negation is checked to bind nothing through the answer tuples."),
         technique="TLC-enumerated body trees; two TLA+ formulations cross-checked; behaviours replayed on compiler+engine",
         ref="5/C06"),
+    "C01": dict(
+        text=("The TLA+ machine spec/YP.tla (clause selection in order, renaming apart at every activation, conjunction, =, \\=, true, fail) predicts the "
+              "answer sequence of every query; TLC checks the machine against published answers of a textbook corpus (AnswersAreSLD) and its invariants in "
+              "every micro state; every predicted behaviour is replayed on the real compiler+engine: same bindings up to renaming incl. aliasing, same order and "
+              "multiplicity, end of enumeration at the same point, no exception, termination within a call budget. Families: all head shapes x call modes for arity <= 2, "
+              "fresh-variable programs, seeded random programs of the fragment."),
+        technique="TLA+ abstract machine as oracle (validated by TLC against a corpus); enumerated and random programs replayed on compiler+engine",
+        ref="5/C01"),
+    "C09": dict(
+        text=("spec/YP.tla defines call/N, once/1, findall/3, = and \\= by their standard definitions as machine steps; enumerated: goal shape (inline atom/compound, "
+              "variable bound at run time, chain of two variables) x extra arguments 0..2 x solution count 0..3 x position (alone, followed by a goal, condition, "
+              "under negation) x route (compiled clause, yp.query on the builtin), findall templates/bags of several shapes, plus random programs using the builtins; "
+              "every behaviour replayed on the real code, no exception may escape."),
+        technique="TLA+ abstract machine as oracle; enumerated builtin scenarios and random programs replayed on compiler+engine",
+        ref="5/C09"),
+    "C13": dict(
+        text=("spec/YP.tla stores Canon(Resolve(term)) at assert and renames facts apart at every use; enumerated: term shapes x binding histories of their variables "
+              "(before directly / through a chain / inside a structure / after the assert / alias / backtracked) x later uses (ground, partial, variable patterns, two uses "
+              "in one body, uses inside the asserting clause, assert_fact from Python with live variables of a suspended query that then moves on); database contents "
+              "read back after every step; plus random programs with database builtins."),
+        technique="TLA+ abstract machine as oracle; enumerated assert/binding histories replayed on compiler+engine",
+        ref="5/C13"),
+    "C14": dict(
+        text=("spec/YP.tla takes a snapshot of the facts when a call or retract starts, removes by fact identity and skips facts already removed; TLC enumerates every "
+              "interleaving (to depth 3-4 after the first answer) of two suspended enumerations with asserta/assertz/retract/retractall on the same predicate, and ~1000 small "
+              "bodies that update a predicate between two answers of its enumeration incl. the drain loop and the counter loop; answers, database after every step, and "
+              "termination within a call budget derived from the spec's step count are compared on the real engine."),
+        technique="TLC-enumerated interleavings of suspended enumerations and updates on the TLA+ machine, replayed on the real engine",
+        ref="5/C14"),
+    "C15": dict(
+        text=("The machine's observation at an answer is the fully resolved term and its to_python image (Terms!ToPy); on the code the driver reads engine.get_value / "
+              "engine.to_python of every query variable at every answer, saves them, and re-reads the saved values after the query ended (a ground answer must be the "
+              "same term with no variable inside). Enumerated: every order of binding a variable and the variables inside its value (outer first, inner first, chains), "
+              "read directly, through findall, through assertz + later query; plus random programs."),
+        technique="TLA+ machine + executable to_python definition as oracle; public accessors observed at and after every answer",
+        ref="5/C15"),
 }
 
 PENDING = {}
